@@ -36,7 +36,7 @@ ASSUMPTIONS = ["single faults (no combinations)"]
 TIMEOUT = {"quick": 1200, "thorough": 3500}
 
 FAULTS = ["forcing_ends_early", "forcing_starts_late", "forcing_starts_late_substep", "forcing_ends_early_substep", "frames_unsorted_in_file", "frames_unsorted_across_files", "frame_duplicated_across_files",
-          "missing_start", "missing_stop", "missing_dt", "stop_on_wrong_side", "releases_all_before_start", "releases_all_at_stop", "releases_all_after_stop",
+          "missing_start", "missing_stop", "missing_dt", "stop_on_wrong_side", "releases_all_before_start", "releases_all_at_stop", "releases_all_after_stop", "releases_straddle_window",
           "release_without_position", "missing_config_file", "missing_grid_file", "missing_forcing_file", "missing_release_file",
           "missing_tracker_section", "missing_time_section", "missing_release_section", "missing_output_section", "missing_forcing_section",
           "subgrid_i0_lt_1", "subgrid_i1_gt_max", "subgrid_i0_ge_i1", "subgrid_j0_lt_1", "subgrid_j1_gt_max", "subgrid_j0_ge_j1", "subgrid_i0_eq_i1"]
@@ -76,7 +76,7 @@ def gen_cases(tier: str, seed: int) -> list[dict[str, Any]]:
     cases = []
     for b in bases(tier, seed):
         for f in FAULTS:
-            if f == "releases_all_before_start" and b["cont"]:
+            if f in ("releases_all_before_start", "releases_straddle_window") and b["cont"]:
                 continue  # not a fault: in continuous mode rows before the start keep releasing at every tick inside the window
             cases.append(dict(base=b, fault=f, subprocess=(b["id"] * 7 + FAULTS.index(f)) % (29 if tier == "quick" else 97) == 0))
     return cases
@@ -124,6 +124,8 @@ def base_files(b: dict[str, Any], wd: Path, fault: str | None):
         steps = [ns]
     elif fault == "releases_all_after_stop":
         steps = [ns + 1, ns + 3]
+    elif fault == "releases_straddle_window":  # rows before the start and at/after the stop, none inside
+        steps = [-2, -1, ns, ns + 2]
     cols = ["release_time", "X", "Y", "Z"]
     rows = [[str(tadd(start, sgn * s * dt)), 6.0 + 0.1 * k, 5.0, 1.0] for k, s in enumerate(steps)]
     if fault == "release_without_position":
